@@ -29,6 +29,8 @@ def gen_config(rng, tier: str, **force) -> dict:
 
 def gen_world(rng, cfg) -> dict:
     n = cfg["n_obj"]
+    if cfg.get("truthy_only"):
+        cfg["alphabet"] = "truthy"
     vals = [1, 2, 3, 4] if cfg["alphabet"] == "truthy" else [0, 1, 2, 3]
     labels = [f"I{i}" for i in range(n)]
     objects = []
@@ -38,6 +40,8 @@ def gen_world(rng, cfg) -> dict:
              "tags": [rng.choice(vals) for _ in range(rng.randint(1, 3))],
              "peer": rng.choice(labels),
              "kids": [rng.choice(labels) for _ in range(rng.randint(0, 2))]}
+        if cfg.get("truthy_only") and not f["kids"]:
+            f["kids"] = [rng.choice(labels)]        # an empty list is a falsy operand value too
         objects.append({"l": l, "t": t, "f": f})
     if cfg.get("twins") and n >= 2:
         # value-equal twins: distinct objects that compare == and hash alike
